@@ -24,7 +24,8 @@ def stray_events(rng, events, pos, svcs):
     i = rng.choice(sorted(cur))
     names = [s["name"] for s in svcs] or ["a1.svc"]
     curtag = "%x_%x" % (i, cur[i])
-    cands = [("zz.unknown", curtag), (rng.choice(names), "%x" % i), (rng.choice(names), "%x_" % i),
+    cands = [("zz.unknown", curtag), (rng.choice(names) + "2", curtag), (rng.choice(names) + ".evil", curtag),
+             (rng.choice(names)[:-1], curtag), (rng.choice(names), "%x" % i), (rng.choice(names), "%x_" % i),
              (rng.choice(names), "_%x" % cur[i]), (rng.choice(names), curtag + "x"), (rng.choice(names), "zz_1"),
              (rng.choice(names), "3f_%x" % cur[i]), (rng.choice(names), "%x_ffff" % i)]
     for s in stale.get(i, []):
